@@ -103,7 +103,7 @@ class Codec:
         if not str(msg_type) or self.SOH in str(msg_type):
             raise EncodingError(f"MsgType can't be sent: {msg_type!r}")
         # text that can't be sent (e.g. lone surrogates) raises here
-        self.SOH.join(fields).encode("utf-8")
+        (self.SOH.join(fields) + str(msg_type)).encode("utf-8")
 
         body = []
         body.append("%s=%s" % (FTag.SenderCompID, session.sender_comp_id))
